@@ -33,6 +33,7 @@ pub struct StepOut {
     pub after: Option<VerifState>,
     pub probes: Vec<&'static str>,
     pub oom_fired: u64,
+    pub multi_insert: bool,
 }
 
 pub struct Acc<'a> {
@@ -93,6 +94,16 @@ pub fn resolve_arg<K, V>(n: Arg, cap: usize, len: usize) -> usize {
         Arg::NearIsize(d) => off(isize::MAX as usize, d),
         Arg::NearElemMax(d) => off(isize::MAX as usize / elem, d),
         Arg::OomHuge(d) => (1usize << 27) + d as usize,
+    }
+}
+
+/// Capacity-relative arguments compound (reserve(2*cap) ten times is an 8M-bucket table and
+/// every later iteration is O(buckets)); they are only honoured while the table is small.
+pub fn arg_allowed(n: Arg, cap: usize) -> bool {
+    match n {
+        Arg::Free(_) | Arg::Len(_) | Arg::Cap(_) | Arg::TwoCap => cap <= 4096,
+        Arg::Abs(x) => x <= 4096,
+        _ => true,
     }
 }
 
@@ -236,6 +247,7 @@ impl<K: KeyT, V: ValT> World<K, V> {
             after: None,
             probes: Vec::new(),
             oom_fired: 0,
+            multi_insert: false,
         };
         {
             let mut acc = Acc {
@@ -332,6 +344,15 @@ impl<K: KeyT, V: ValT> World<K, V> {
         removed: usize,
         may_leave_empty_old: bool,
     ) {
+        if acc.out.multi_insert {
+            // a handle chain that inserted more than once is several key-adding calls
+            let slot = &mut self.maps[m];
+            let after = slot.m.verif_state();
+            acc.out.before = Some(before);
+            acc.out.after = Some(after);
+            slot.countdown = if after.split && after.old_len > 0 { Some(ceil_div(after.old_len, after.r.max(1)) as u64) } else { None };
+            return;
+        }
         let slot = &mut self.maps[m];
         let after = slot.m.verif_state();
         acc.out.before = Some(before);
